@@ -3,7 +3,7 @@ package main
 func init() {
 	register(propSpec{
 		ID: "C06", Pkg: "props/c06", NeedCLI: true,
-		Rule: "cases: nucleotide alignments/sequence sets (1-6 rows, length 0-25, full IUPAC DNA alphabet in both cases plus '-', '.', '*') with a drawn subset of names (unknown and repeated names included), protein/nucleotide sets for case and un-align, all 256 byte values for the complement table, and goalign revcomp/tolower/toupper/unalign executions (FASTA in drawn layouts or Phylip files of 1-4 alignments, --unaligned sequence sets, output to standard output, a new file or an existing longer file; in a third of the multi-alignment files one alignment has a short row and the status must then be non-zero). A third of the library alignments are not freshly built but come out of a drawn chain of other public operations ending on the same content (internal/gen provenance plans); Sequence-level Reverse/Complement also on rows reached by index and by name. " +
+		Rule: "cases: nucleotide alignments/sequence sets (1-6 rows, length 0-25, full IUPAC DNA alphabet in both cases plus '-', '.', '*') with a drawn subset of names (unknown and repeated names included), protein/nucleotide sets for case and un-align, all 256 byte values for the complement table, and goalign revcomp/tolower/toupper/unalign executions (FASTA in drawn layouts or Phylip files of 1-4 alignments, --unaligned sequence sets, output to standard output, a new file or an existing longer file; in a third of the multi-alignment files one alignment has a short row and the status must then be non-zero). A third of the library alignments are not freshly built but come out of a drawn chain of other public operations ending on the same content (internal/gen provenance plans); Sequence-level Reverse/Complement also on rows reached by index and by name. Prior use (after-edit run): on one object (alignment or set, 1-5 rows, length 0-15) a transform of the property is applied, then 1-3 drawn in-place edits by the library's own mutators (ReplaceChar, SetSequenceChar, writes through SequenceChar() of a row reached by index or name, Mask/MaskUnique/MaskOccurences, Mutate, ReplaceMatchChars, Swap, Replace, ReverseComplement, Sequence.Reverse/Complement, Sort), then a transform (the same one half of the time) judged by the same model on the content read back after the edits, for 2-3 rounds. " +
 			"Oracle: complement derived from set complementation of the IUPAC definitions, reverse, ASCII case maps, deletion of '-'; involution and idempotence. " +
 			"Non-trivial: the transform changed the data AND the rows contain a non self-complementary ambiguity code or mixed case or the subset is a proper subset (revcomp); mixed case and at least one gap removed (case/unalign); distinct = distinct JSON form of the case",
 		Assumptions: []string{
@@ -19,6 +19,7 @@ func init() {
 			{Name: "table", Test: "^TestComplementTable$", Quick: 1, Thorough: 1},
 			{Name: "case-unalign", Test: "^TestCaseUnalign$", Quick: 4000, Thorough: 100000, Shards: 4},
 			{Name: "sequence", Test: "^TestSequenceLevel$", Quick: 4000, Thorough: 100000, Shards: 2},
+			{Name: "after-edit", Test: "^TestAfterEdit$", Quick: 6000, Thorough: 100000, Shards: 4},
 			{Name: "cli", Test: "^TestCLI$", Quick: 600, Thorough: 4000, Shards: 4},
 		},
 	})
